@@ -1,11 +1,13 @@
 #!/bin/bash
 # tools/mutant.sh <patch.diff | seeded/<id> dir> <prop> [quick|thorough]  -- run a check against a scratch copy of /repo with the patch applied
 # (scratch copy = git archive of /repo HEAD; if the patch does not apply there, of $BASE (default: the commit the seeded mutants were written against))
-PATCH="$(readlink -f "$1")"; [ -d "$PATCH" ] && { [ -f "$PATCH/patch.head.diff" ] && PATCH="$PATCH/patch.head.diff" || PATCH="$PATCH/patch.diff"; }; PROP="$2"; TIER="${3:-quick}"; BASE="${BASE:-7d67693}"
+PATCH="$(readlink -f "$1")"; ONLY=""; [ -d "$PATCH" ] && [ -f "$PATCH/meta.json" ] && ONLY="$(python3 -c "import json,sys;print(json.load(open(sys.argv[1])).get('apply_to',''))" "$PATCH/meta.json")"
+[ -d "$PATCH" ] && { [ -f "$PATCH/patch.head.diff" ] && PATCH="$PATCH/patch.head.diff" || PATCH="$PATCH/patch.diff"; }; PROP="$2"; TIER="${3:-quick}"; BASE="${BASE:-7d67693}"
 D="$(mktemp -d /tmp/verif-mut-XXXXXX)"
 trap 'rm -rf "$D"' EXIT
 mkdir -p "$D/repo"
-(cd /repo && git archive HEAD iOpt) | tar -x -C "$D/repo"
+(cd /repo && git archive "${ONLY:-HEAD}" iOpt) | tar -x -C "$D/repo"
+[ -n "$ONLY" ] && echo "note: this change is evaluated against commit $ONLY (meta.apply_to)"
 if ! (cd "$D/repo" && git init -q . && git apply --whitespace=nowarn "$PATCH" 2>/dev/null); then
   rm -rf "$D/repo"; mkdir -p "$D/repo"
   (cd /repo && git archive "$BASE" iOpt) | tar -x -C "$D/repo"
